@@ -196,8 +196,8 @@ func SlIdx(s, i Term) Term { return app(SInt, "sidx", s, i) }
 func MkSlice(base, off, ln, cp Term) Term {
 	return app(SSlice, "mkSl", base, off, ln, cp)
 }
-func ITy(i Term) Term       { return app(SInt, "ity", i) }
-func IVal(i Term) Term      { return app(SInt, "ival", i) }
+func ITy(i Term) Term        { return app(SInt, "ity", i) }
+func IVal(i Term) Term       { return app(SInt, "ival", i) }
 func MkIface(t, v Term) Term { return app(SIface, "mkI", t, v) }
 
 // Result of a solver run.
@@ -259,7 +259,11 @@ func NewRunner(dir string, timeoutMs, seed int, allAgree bool) *Runner {
 }
 
 func runOne(sp solverSpec, file string, timeoutMs, seed int) (string, string) {
-	ctx, cancel := context.WithTimeout(context.Background(), time.Duration(timeoutMs+2000)*time.Millisecond)
+	return runOneCtx(context.Background(), sp, file, timeoutMs, seed)
+}
+
+func runOneCtx(parent context.Context, sp solverSpec, file string, timeoutMs, seed int) (string, string) {
+	ctx, cancel := context.WithTimeout(parent, time.Duration(timeoutMs+2000)*time.Millisecond)
 	defer cancel()
 	cmd := exec.CommandContext(ctx, sp.bin, sp.args(file, timeoutMs, seed)...)
 	var out bytes.Buffer
@@ -363,18 +367,37 @@ func (r *Runner) Solve(script string) *SolveResult {
 			}
 		}
 	} else {
-		// sequential portfolio: first definite answer wins; the first solver
-		// decides almost everything, the others are consulted on unknown/timeout.
-		for i, sp := range solvers {
-			s, o := runOne(sp, files[i], r.TimeoutMs, r.Seed)
-			res.AllRuns[sp.name] = s
-			if s == "unsat" || s == "sat" {
-				res.Status, res.Solver, res.Output = s, sp.name, o
-				break
+		// the first solver gets a short head start (it decides almost everything in
+		// milliseconds); then all solvers race and the first definite answer wins.
+		quick := 1500
+		if quick > r.TimeoutMs {
+			quick = r.TimeoutMs
+		}
+		st, o := runOne(solvers[0], files[0], quick, r.Seed)
+		res.AllRuns[solvers[0].name] = st
+		if st == "unsat" || st == "sat" {
+			res.Status, res.Solver, res.Output = st, solvers[0].name, o
+		} else {
+			res.Status, res.Solver, res.Output = st, solvers[0].name, o
+			ctx, cancel := context.WithCancel(context.Background())
+			ch := make(chan ans, len(solvers))
+			for i, sp := range solvers {
+				go func(i int, sp solverSpec) {
+					s, o := runOneCtx(ctx, sp, files[i], r.TimeoutMs, r.Seed)
+					ch <- ans{i, s, o}
+				}(i, sp)
 			}
-			if res.Status == "" || res.Status == "error" {
-				res.Status, res.Solver, res.Output = s, sp.name, o
+			for range solvers {
+				a := <-ch
+				if _, seen := res.AllRuns[solvers[a.i].name]; !seen || a.status == "unsat" || a.status == "sat" {
+					res.AllRuns[solvers[a.i].name] = a.status
+				}
+				if a.status == "unsat" || a.status == "sat" {
+					res.Status, res.Solver, res.Output = a.status, solvers[a.i].name, a.out
+					break
+				}
 			}
+			cancel()
 		}
 	}
 	res.Millis = time.Since(t0).Milliseconds()
